@@ -4,7 +4,8 @@ parts and the arguments only, which is itself part of C08 (results are functions
 arguments)."""
 from . import spec_parse
 from .spec_path import normalize_path
-from .prims import CUT, hash_parts
+from . import prims
+from .prims import CUT, first_of, hash_parts
 
 DEFAULT_PORTS = {"http": 80, "https": 443, "ws": 80, "wss": 443, "ftp": 21}   # C17
 
@@ -331,21 +332,62 @@ def with_fragment(u, fragment):
 SCHEME_REQUIRES_HOST = ("http", "https", "ws", "wss", "ftp")
 
 
+def idna_encode(host):
+    """IDNA 2008 with UTS 46 mapping, else the IDNA 2003 codec lower-cased (C16)"""
+    if prims.idna2008_ok(host):
+        return prims.idna2008(host)
+    if not prims.idna2003_ok(host):
+        raise UnicodeError("label empty or too long")
+    return prims.idna2003(host).lower()
+
+
+def idna_encode_ensures(host, result):
+    """C16: whatever route is taken, the encoded name is lower-case ASCII (and not empty)"""
+    return (prims.is_lower_ascii(result), result != "" or host == "")
+
+
 def encode_host(host, validate_host):
-    """host canonicalisation (C16) -- specified separately; here it is the assumed contract of
-    yarl._url._encode_host, natively the real function"""
-    from yarl._url import _encode_host
-    return _encode_host.__wrapped__(host, validate_host)
+    """host canonicalisation (C16).  An IP literal (with an optional zone id, kept verbatim)
+    is compressed; IPv6 -- and anything else with a colon -- gets brackets; every other host
+    is lower-cased (ASCII) or IDNA-encoded; with validation on, only reg-name characters pass
+    (in the zone id too)."""
+    if host and (prims.is_udigit(host[-1:]) or ":" in host):
+        z = first_of(host, "%")
+        raw_ip = host[:z]
+        zone = host[z + 1:]
+        if prims.ip_ok(raw_ip):
+            if validate_host and prims.regname_bad_at(zone.lower()) >= 0:
+                raise ValueError("zone id")
+            c = prims.ip_compressed(raw_ip)
+            body = c + "%" + zone if z < len(host) else c
+            return "[" + body + "]" if (prims.ip_version(raw_ip) == 6 or ":" in zone) else body
+    h = host.lower() if host.isascii() else idna_encode(host)
+    if validate_host and prims.regname_bad_at(h) >= 0:
+        raise ValueError("not a reg-name")
+    return "[" + h + "]" if ":" in h else h
+
+
+def _host_body_ok(host, validate_host, body, br):
+    z = first_of(host, "%")
+    is_ip = host != "" and (prims.is_udigit(host[-1:]) or ":" in host) and prims.ip_ok(host[:z])
+    return ((":" in body) == br,
+            is_ip or prims.is_lower_ascii(body),
+            is_ip or not validate_host or (prims.regname_bad_at(body) < 0 and not br),
+            not is_ip or body == prims.ip_compressed(host[:z]) + host[z:],
+            not is_ip or not validate_host or prims.regname_bad_at(host[z + 1:].lower()) < 0)
 
 
 def encode_host_ensures(host, validate_host, result):
-    """what callers may rely on (C16/C03): the encoded host carries no authority delimiter
-    outside IP-literal brackets, brackets only enclose it, and it is empty only for an empty host"""
-    br = result[:1] == "["
-    return ((br and result[-1:] == "]" and not ("@" in result) and not ("/" in result) and not ("[" in result[1:])
-             and not ("]" in result[:-1]) and len(result) >= 2)
-            or (not br and not (":" in result) and not ("@" in result) and not ("[" in result) and not ("]" in result)
-                and (result != "" or host == "")))
+    """C16 / C03 / C09, what callers rely on.  `br`: the result is an IP-literal as the parser
+    sees one (enclosing brackets around text with a colon).  A colon occurs only inside such
+    brackets; outside an IP literal's zone id the text is lower-case ASCII; a validated host has
+    only reg-name characters (so no authority delimiter at all) outside the IP digits, in the
+    zone id too; an IP literal is its compressed form followed by the zone verbatim; the result
+    is empty only for an empty host"""
+    br = result[:1] == "[" and result[-1:] == "]" and len(result) >= 2 and ":" in result[1:-1]
+    return ((result != "" or host == ""),
+            (_host_body_ok(host, validate_host, result[1:-1], True) if br
+             else _host_body_ok(host, validate_host, result, False)))
 
 
 def encode_url(url_str):
